@@ -12,7 +12,8 @@ _FRAMES = {}
 def impl_tobytes(cls_, id_, payload, reuse=False):
     """to_bytes() twice; between the two calls the returned buffer is consumed (cleared) by the caller, as
     a transport may do. With reuse=True the SAME frame object serves successive payloads (data replaced
-    without pack()): serialisation must depend on the current payload only."""
+    without pack()): serialisation must depend on the current payload only. reuse=2: the payload OBJECT stays too, its content
+    is replaced in place (frame.data[:] = ...)."""
     from ubxlib.cid import UbxCID
     from ubxlib.frame import UbxFrame
     key = (cls_, id_)
@@ -23,7 +24,10 @@ def impl_tobytes(cls_, id_, payload, reuse=False):
         f = F()
         if reuse:
             _FRAMES[key] = f
-    f.data = bytearray(payload)
+    if reuse == 2 and isinstance(f.data, bytearray):
+        f.data[:] = payload              # the SAME payload object, edited in place
+    else:
+        f.data = bytearray(payload)
     fields_before = f.f
     b1 = f.to_bytes()
     m1 = bytes(b1)
@@ -52,7 +56,7 @@ def check(tier, seed):
                 'lengths (thorough: every length 0..4096 and +-2 around every multiple of 255 and 256 up to 65535), '
                 'contents random/all-FF/zero/sync-dense; to_bytes() called twice; compared: both byte strings and '
                 'frame.data afterwards with model, and first call with spec wire; half of the cases reuse one frame object per class/id for successive '
-                'payloads and every case clears the returned buffer before the second call; non-trivial = payload length >= 1')
+                'payloads (a quarter also keeps the payload OBJECT and replaces its content in place); block-size lengths 1024..61440 +-1 with random content; payloads and every case clears the returned buffer before the second call; non-trivial = payload length >= 1')
     with C.WorkDir('C01') as wd:
         C.audit_sources()
         C.tie_b_kernels(res, wd, ('ck', 'frame'))
@@ -62,6 +66,9 @@ def check(tier, seed):
             res.oblige('theorem ' + t, pr['rc'] == 0, pr['out'])
         rng = C.rng_for(seed, 'C01')
         lens = [0, 1, 2, 3, 254, 255, 256, 257, 509, 510, 511, 512, 765, 1000, 1001, 65279, 65280, 65534, 65535]
+        # block sizes an optimised checksum / copy might use: powers of two and their multiples, +-1
+        blocks = sorted(set(x + d for x in (1024, 2048, 4096, 8192, 12288, 16384, 20480, 32768, 49152, 61440) for d in (-1, 0, 1)))
+        lens += blocks
         if tier == 'quick':
             lens += [rng.randrange(0, 2000) for _ in range(150)] + [rng.randrange(2000, 65536) for _ in range(12)]
         else:
@@ -82,8 +89,10 @@ def check(tier, seed):
                 cases = []
             c, i = cids[k % len(cids)] if k % 3 else (rng.randrange(256), rng.randrange(256))
             style = rng.choice(['rand', 'rand', 'ff', 'zero', 'sync'])
+            if n in blocks:
+                style = 'rand'           # constant or periodic contents hide a block summed twice
             p = gen_payload(rng, n, style)
-            impl = C.guarded(impl_tobytes, c, i, p, k % 2 == 0)
+            impl = C.guarded(impl_tobytes, c, i, p, (0, 1, 0, 2)[k % 4])
             if impl.startswith('!'):
                 _FRAMES.pop((c, i), None)
             desc = {'cls': c, 'id': i, 'len': n, 'style': style, 'payload_hex': C.hexs(p) if n <= 300 else C.hexs(p[:300]) + '...'}
